@@ -526,6 +526,12 @@ class Proj:
                 o['inc'] = [c for c in o['inc'] if c != only]
             self.pch = {'inc': [only] + rng.sample([h for h in self.hdr if h != only], rng.randint(0, 1))}
 
+    def sname(self, i):
+        """relative path of source i: some sources live in a sub-directory whose name needs escaping in the Makefile (the
+        object, its depfile and the -include line of the depfile inherit it)"""
+        d = self.src[i].get('dir', '')
+        return (d + '/' if d else '') + 's%d.c' % i
+
     def includers(self):
         return list(self.hdr.values()) + list(self.src.values()) + ([self.pch] if self.pch else [])
 
@@ -562,7 +568,8 @@ class Proj:
         i = self.next_s
         self.next_s += 1
         hs = list(self.hdr)
-        self.src[i] = {'k': self.rng.randint(1, 9), 'inc': self.rng.sample(hs, self.rng.randint(0, min(3, len(hs))))}
+        self.src[i] = {'k': self.rng.randint(1, 9), 'inc': self.rng.sample(hs, self.rng.randint(0, min(3, len(hs)))),
+                       'dir': self.rng.choice(['', '', 'd r', 'a#b', 'sub/de ep']) if self.special else ''}
         return i
 
     # -- semantics (the include-scanner oracle)
@@ -579,7 +586,7 @@ class Proj:
         return ({'pch.h'} | {self.hdr[h]['name'] for h in self.hclosure(self.pch['inc'])}) if self.pch else set()
 
     def closure_files(self, s):
-        return {'s%d.c' % s} | {self.hdr[h]['name'] for h in self.hclosure(self.src[s]['inc'])} | self.pch_files()
+        return {self.sname(s)} | {self.hdr[h]['name'] for h in self.hclosure(self.src[s]['inc'])} | self.pch_files()
 
     def hval(self, h):
         return self.hdr[h]['v'] + sum(self.hval(c) for c in self.hdr[h]['inc'])
@@ -598,20 +605,21 @@ class Proj:
             out[h['name']] = t
         first = min(self.src)
         for i, s in self.src.items():
-            t = ''.join('#include "%s"\n' % self.hdr[c]['name'] for c in s['inc'])
+            up = '../' * len([x for x in s.get('dir', '').split('/') if x])
+            t = ''.join('#include "%s%s"\n' % (up, self.hdr[c]['name']) for c in s['inc'])
             t += 'int f%d(void) { return %d%s; }\n' % (i, s['k'], ''.join(' + V%d' % c for c in s['inc']))
             if i == first:
                 t += '#include <stdio.h>\n' + ''.join('int f%d(void);\n' % j for j in self.src if j != i)
                 t += 'int main(void) { printf("%%d\\n", 0%s%s); return 0; }\n' % (
                     ''.join(' + f%d()' % j for j in self.src), ' + VPCH' if self.pch else '')
-            out['s%d.c' % i] = t
+            out[self.sname(i)] = t
         if self.pch:
             out['pch.h'] = ''.join('#include "%s"\n' % self.hdr[c]['name'] for c in self.pch['inc']) + \
                 '#define VPCH (0%s)\n' % ''.join(' + V%d' % c for c in self.pch['inc'])
             out['build.bfg'] = "pch = precompiled_header(file='pch.h')\nexecutable('prog', files=[%s], pch=pch)\n" % \
-                ', '.join("'s%d.c'" % i for i in sorted(self.src))
+                ', '.join(repr(self.sname(i)) for i in sorted(self.src))
         else:
-            out['build.bfg'] = "executable('prog', files=[%s])\n" % ', '.join("'s%d.c'" % i for i in sorted(self.src))
+            out['build.bfg'] = "executable('prog', files=[%s])\n" % ', '.join(repr(self.sname(i)) for i in sorted(self.src))
         return out
 
     # -- edits; each returns a description
@@ -629,7 +637,7 @@ class Proj:
             if k == 'mod_src':
                 s = rng.choice(ss)
                 self.src[s]['k'] += rng.randint(1, 5)
-                return [k, 's%d.c' % s]
+                return [k, self.sname(s)]
             if k == 'touch_hdr' and hs:
                 h = rng.choice(hs)
                 return [k, self.hdr[h]['name']]
@@ -667,17 +675,19 @@ class Proj:
                     o['inc'].remove(rng.choice(o['inc']))
                     return [k]
             if k == 'add_src' and len(ss) < 6:
-                return [k, 's%d.c' % self.add_source()]
+                return [k, self.sname(self.add_source())]
             if k == 'del_src' and len(ss) > 1:
                 s = rng.choice(ss)
+                nm = self.sname(s)
                 del self.src[s]
-                return [k, 's%d.c' % s]
+                return [k, nm]
             if k == 'ren_src' and ss:
                 s = rng.choice(ss)
                 n = self.next_s
                 self.next_s += 1
+                old = self.sname(s)
                 self.src[n] = self.src.pop(s)
-                return [k, 's%d.c' % s, 's%d.c' % n]
+                return [k, old, self.sname(n)]
         return ['none']
 
 
@@ -756,6 +766,7 @@ class SysRun:
                 dirty.add(nm)
         for nm, text in new.items():
             if self.written.get(nm) != text:
+                os.makedirs(os.path.dirname(os.path.join(self.src, nm)), exist_ok=True)
                 with open(os.path.join(self.src, nm), 'w') as f:
                     f.write(text)
                 self.written[nm] = text
@@ -780,7 +791,7 @@ class SysRun:
         for line in open(self.log).read().split('\n'):
             a = line.split('\x1f')
             if '-MF' in a and '-c' in a:
-                compiled.add(os.path.basename(a[a.index('-c') + 1]))
+                compiled.add(os.path.relpath(a[a.index('-c') + 1], self.src))
             elif line:
                 other += 1
         return p, compiled, other
@@ -819,7 +830,7 @@ def run_history(rep, seed, idx, cc, nedits, risky=None):
         listed = {}
 
         def check_build(step, dirty, expect_all=False):
-            cur = {'s%d.c' % s: proj.closure_files(s) for s in proj.src}
+            cur = {proj.sname(s): proj.closure_files(s) for s in proj.src}
             if proj.pch:
                 cur['pch.h'] = proj.pch_files()          # the precompiled header is a compile step of its own
             predicted = {s for s in cur if expect_all or s not in listed or (listed[s] & dirty)}
